@@ -156,6 +156,18 @@ def path_preds(body, org, p):
             else:
                 continue
             out.append((simplify(org.of_operand(t["x"], bi, "t")), truth, t["span"]["at"]))
+        elif t["k"] == "switch":
+            # a switch on the variant of an Option / Result that was built on this very path (a spliced-in helper
+            # returning `Some(v)` / `None`): the arm taken must be the variant's
+            x = simplify(org.of_operand(t["x"], bi, "t"))
+            if x[0] == "discr" and x[1][0] == "agg":
+                nxt = p[i + 1]
+                vals = [int(v) for v, bb in t["arms"] if bb == nxt]
+                if vals:
+                    out.append((("bin", "Eq", x, ("const", "isize", vals[0])), True, t["span"]["at"]))
+                elif t["otherwise"] == nxt:
+                    for v, _ in t["arms"]:
+                        out.append((("bin", "Eq", x, ("const", "isize", int(v))), False, t["span"]["at"]))
     return out
 
 
